@@ -1,22 +1,23 @@
 SPEC = {
     "id": "C12",
     "props_file": "Props/C12.v",
-    "gen": [],
+    "gen": ["ckptconsts"],
     "streams": [
         {"name": "ckpt", "cmd": "ckpt",
-         "args": {"quick": ["-trees", "30", "-per-tree", "4", "-kmax", "120"],
-                  "thorough": ["-trees", "500", "-per-tree", "5", "-maxn", "3000", "-kmax", "200"]},
+         "args": {"quick": ["-trees", "26", "-per-tree", "4", "-kmax", "400"],
+                  "thorough": ["-trees", "500", "-per-tree", "5", "-maxn", "3000", "-kmax", "3000", "-stack-budget", "6000000", "-kwork", "3000000"]},
          "search_args": ["-trees", "150", "-per-tree", "4", "-kmax", "0"]},
     ],
     "trusted_base": [
         "Coq 8.16.1 kernel (coqc); no native_compute",
         "harness/cmd/ckpt (drives the real checkpoint.NewFileCreator / NewRestorer on real badger and pathbadger databases in temp dirs; independent snappy/CBOR/node decoder for the chunk files)",
-        "vm_compute evaluation of Verif.Ckpt.Model (run_ckpt) on the recorded (entries, chunk size, threads) cases: per-chunk key lists in proof order, both chunkers",
+        "harness/cmd/gen ckptconsts (go/ast reader: maxProofDepth and its comparison, the splitTasks iteration bound, the sequential loop comparison, proof version, node prefixes, width of the length fields)",
+        "vm_compute evaluation of Verif.Ckpt.Stack.run_both on the recorded (tree, chunk size, threads) cases: per-chunk key lists in proof order, both chunkers, threads 0..32; for threads > 0 and bounded work both model layers are evaluated (the count abstraction of Ckpt/Model.v and the port of the subtree{path,pending} stack machine with the proof builder's included set, Ckpt/Stack.v) and must agree with the real chunker and with each other; trees above 60 keys are rebuilt from the shape dumped from the real database (whole-tree proof) instead of by the model's insert",
         "Verif.Mkvs.Trie (trie model; its correspondence is checked by C02/C03)",
         "modelled abstractly: snappy + CBOR framing and node decoding (a function bytes -> option proof), the digest and node hashes (abstract functions, collision disjunct), the node database during a multipart restore (the set of imported key/value pairs); not modelled: goroutine scheduling inside RestoreChunk, badger/pathbadger key layout (exercised by the harness only)",
     ],
     "assumptions": [
-        "the parallel chunker's traversal state subtree{path,pending} is abstracted to (subtree, number of keys already visited); the abstraction is validated chunk by chunk against the real chunker for threads 1..16, not proved against a stack-machine port",
+        "the theorems about the parallel chunker are proved for the count abstraction (subtree, number of keys already visited); the port of the subtree{path,pending} stack machine (Ckpt/Stack.v) is tied to it by evaluation (three-way agreement with the real chunker on every correspondence case), its refinement is proved only compositionally (par_stack_refines_count_partial: splitTasks, rounds and filtering preserve a simulation whose nextChunk/split steps are premises)",
         "keys are non-empty (the empty key is outside the domain of the iterator, see C03)",
         "decoded proofs respect the length fields of the format (pbounded)",
     ],
